@@ -6,6 +6,7 @@ import c02
 
 CONFIGS = ['prod']
 EXPLANATION = (
+    'W9: the selector handle keeps no selection of its own (C15.N8 re-evaluated). '
     'W8: the membership record is a plain carrier — ClusterMember::new stores id, address and data centre exactly as given (the selector filters the local node by comparing addresses, the consumers key their peers by id). '
     'SEM, API level (abstract interpretation of the MIR, no code runs): each of put / put_many / del / del_many of the replicated store is interpreted end to end with node '
     'selection, the node clock, the local keyspace actor, the distributor queue and the RPC wire as modelled effects, for seven scenarios (selection refused; no replica selected; '
@@ -304,6 +305,7 @@ def check(ctx):
     import c15
     n0 = len(ctx.obs)
     c15.check_actor(ctx, facts, rule='C06.W7.SEM')
+    c15.check_N8(ctx, facts, rule='C06.W9')
     for o in ctx.obs[n0:]:
         if not o.rule.startswith('C06.'):
             o.rule = 'C06.W7'
